@@ -1579,9 +1579,13 @@ def _(ex, a):
         return Ok(NONE())
     if not s.f[0]:
         return Ok(NONE())
-    el = s.f[0].pop(0)
-    if el == 'err':
+    if s.f[0][0] == 'err':
+        # an element the format cannot parse: the error is reported again on every later call (the position does
+        # not advance), as the streaming formats do
         return Err(Agg('DeError', ['injected']))
+    el = s.f[0].pop(0)
+    if T.endswith('IgnoredAny'):
+        return Ok(Some(Agg('IgnoredAny', [])))
     rows, announce = (el['rows'], el.get('announce')) if isinstance(el, dict) else (el, None)
     if not T.startswith(('Vec<', 'std::vec::Vec<', 'alloc::vec::Vec<')):
         own = _crate_deserialize(ex, T)
@@ -1626,7 +1630,13 @@ def _(ex, a):
     cands = ex.ix.methods.get((fl, 'GraphVisitor', 'visit_seq'), [])
     if len(cands) != 1:
         raise Unsupported('visit_seq not found for ' + fl)
-    return ex.call_fn(cands[0][0], [vis, a[0]])
+    r = ex.call_fn(cands[0][0], [vis, a[0]])
+    if r.variant == 0 and isinstance(a[0], Agg) and a[0].kind == 'StubSeq' and a[0].f[0]:
+        # the visitor returned without consuming the whole sequence: the format's end-of-sequence check fails
+        # (serde_json: trailing characters; serde_cbor: trailing data)
+        ex.drop(r.f[0])
+        return Err(Agg('DeError', ['trailing elements']))
+    return r
 
 
 # ------------------------------------------------------------------ BTreeSet / BTreeMap (sorted lists, element Ord through gdsl's MIR)
@@ -3348,3 +3358,41 @@ def _as_ptr(ex, a):
 
 
 P['Rc::as_ptr'] = P['Arc::as_ptr'] = P['Weak::as_ptr'] = _as_ptr
+
+
+# ------------------------------------------------------------------ integer ranges as iterators ((a..b).map(..), for i in a..b)
+_iter_next_base2 = iter_next
+
+
+def iter_next(ex, itref):          # noqa: F811
+    it = ex.deref(itref)
+    k = it.kind.split('::')[-1] if isinstance(it, Agg) else ''
+    if k == 'Range' and len(it.f) == 2:
+        lo, hi = _cidx(it.f[0]), _cidx(it.f[1])
+        if lo < hi:
+            it.f[0] = lo + 1
+            return Some(lo)
+        return NONE()
+    if k == 'RangeInclusive' and len(it.f) >= 2:
+        lo, hi = _cidx(it.f[0]), _cidx(it.f[1])
+        if len(it.f) > 2 and it.f[2] is True:
+            return NONE()
+        if lo < hi:
+            it.f[0] = lo + 1
+            return Some(lo)
+        if lo == hi:
+            if len(it.f) > 2:
+                it.f[2] = True
+            else:
+                it.f.append(True)
+            return Some(lo)
+        return NONE()
+    return _iter_next_base2(ex, itref)
+
+
+ITER_KINDS.update({'std::ops::Range', 'Range', 'std::ops::RangeInclusive', 'RangeInclusive', 'core::ops::Range'})
+for _i, (_rx, _fn) in enumerate(PATTERN_PRIMS):
+    if _rx.pattern == r'^<.* as Iterator>::next$':
+        PATTERN_PRIMS[_i] = (_rx, lambda ex, a: iter_next(ex, a[0]))
+
+DROP_HOOKS['IgnoredAny'] = lambda ex, v: None
